@@ -14,7 +14,7 @@ Open Scope N_scope.
 
 (* ---- "every permutation of every embedded test suite": which permutations exist ---- *)
 (* a permutation of the library: a suite the mode admits, one of its test cases, a config case the
-   configuration denotes (C06_Spec.spec_member) and the suite's directives admit (C07_Spec.admits),
+   configuration denotes (C06_Spec.spec_member) and the suite's directives allow (C07_Spec.admits),
    of the test's stream type *)
 Definition base_perm (cfg : C06_Model.config) (ss : list suite) (mode : N) (p : perm) : Prop :=
   exists s t c, In s ss /\ In t (s_cases s) /\ C06_Spec.spec_member cfg c /\
